@@ -215,10 +215,17 @@ def eval_g(case):
     cell = "%s/%s/%s/%s" % (case["ext"], "with-axis" if case["axis"] else "no-axis",
                             "%dD" % len(case["shape"]),
                             "real" if case["dtype"].startswith("real") else "complex")
+    if case.get("ctx"):
+        cell += "/inside-energy_units(%s)" % case["ctx"]
     tmp = _mkdtemp("c18g_")
     try:
         try:
-            data, back, ax_out, ax_back = _g_roundtrip(case, tmp)
+            if case.get("ctx"):
+                # export and import both made inside the same units context of the caller
+                with isolation.qr().energy_units(case["ctx"]):
+                    data, back, ax_out, ax_back = _g_roundtrip(case, tmp)
+            else:
+                data, back, ax_out, ax_back = _g_roundtrip(case, tmp)
         except isolation.HarnessError:
             raise
         except Exception as e:
@@ -293,6 +300,11 @@ def cases_g(tier):
                             continue        # AbsSpectrum.save_data(filename): always with axis
                         cs.append({"part": "G", "cls": cls, "ext": ext, "dtype": f,
                                    "shape": shape, "axis": axis})
+                        if cls in ("AbsSpectrum", "TwoDResponse") and axis and \
+                                f in ("real", "complex") and shape in shapes[:2] + shapes[len(Ns):len(Ns) + 1]:
+                            for ctx in (["1/cm"] if tier == "quick" else ["1/cm", "eV", "nm"]):
+                                cs.append({"part": "G", "cls": cls, "ext": ext, "dtype": f,
+                                           "shape": shape, "axis": axis, "ctx": ctx})
     for shape in shapes + [[nt, d, d] for nt, d in herm]:
         for ext in EXTS:
             for f in flav:
